@@ -1,9 +1,97 @@
-(* Properties/C08.v — placeholder while the proofs are being written. *)
+(* Properties/C08.v — Same-size manifest replacement only changes the reported manifest region.
+   Statements only; every theorem is closed by [exact] of a lemma in Proofs/.
+
+   A file is  head(n) ++ segments ++ tail  (head may depend on the length n of the segment area, e.g.
+   the RIFF size field).  Part 1: locality for every format satisfying the obligations [laws]
+   (proved once); part 2: the region reported by the handlers' get_object_locations_from_stream on a
+   written asset is that region (PNG on bytes; JPEG and GIF on segments), it does not overlap the other
+   reported regions and lies in the file; part 3: the JPEG defect classes outside the hypotheses. *)
 From Coq Require Import List NArith Bool Lia.
 From C2PA Require Import Base.Bytes Model.Container Model.ContPng Model.ContJpeg Model.ContGif Model.ContRiff Model.ContRun
-     Proofs.ContainerProofs Generated.C07_facts.
+     Proofs.ContainerProofs Proofs.ContPngProofs Proofs.ContJpegProofs Proofs.ContGifProofs Generated.C07_facts.
 Import ListNotations.
-Open Scope N_scope.
 
-Theorem c08_facts_agree : PLACEHOLDER_LEN = F_JPEG_PLACEHOLDER_LEN /\ PNG_HDR_LEN = F_PNG_HDR_LEN.
+Theorem c08_facts_agree :
+  PLACEHOLDER_LEN = F_JPEG_PLACEHOLDER_LEN /\ PNG_HDR_LEN = F_PNG_HDR_LEN
+  /\ N.of_nat MAX_JPEG_MARKER_SIZE = F_MAX_JPEG_MARKER_SIZE /\ N.of_nat GIF_SUB_MAX = F_GIF_SUB_MAX.
 Proof. vm_compute. repeat split; reflexivity. Qed.
+
+(* ---- 1. same-length replacement: equal file length, same region, bytes outside the region equal,
+        the region lies in the file and holds exactly the encoded C2PA segments ---- *)
+Theorem c08_same_length_local :
+  forall F seg_ok adm, laws F seg_ok adm ->
+  forall (head : nat -> bytes) (tail : bytes) l b1 b2,
+    length b1 = length b2 ->
+    let f1 := file F head tail (gwrite F l b1) in
+    let f2 := file F head tail (gwrite F l b2) in
+    length f1 = length f2
+    /\ foff F head l b1 = foff F head l b2 /\ glen F b1 = glen F b2
+    /\ (forall k, (k < foff F head l b1 \/ foff F head l b1 + glen F b1 <= k)%nat -> nth k f1 0%N = nth k f2 0%N)
+    /\ (foff F head l b1 + glen F b1 <= length f1)%nat
+    /\ firstn (glen F b1) (skipn (foff F head l b1) f1) = encs F (mk F b1).
+Proof. exact same_length_local. Qed.
+
+(* the files of the modelled formats have that shape *)
+Theorem c08_png_file : forall crc cs tr, png_enc cs tr = file (png_format crc) (fun _ => PNG_SIG) tr cs.
+Proof. exact png_enc_file. Qed.
+Theorem c08_jpeg_file : forall l, jpeg_enc l = file jpeg_format (fun _ => [255; M_SOI]%N) [] l.
+Proof. intro l. unfold jpeg_enc, file. rewrite app_nil_r. reflexivity. Qed.
+Theorem c08_gif_file : forall pre bs tl, gif_enc pre bs tl = file gif_format (fun _ => pre) tl bs.
+Proof. reflexivity. Qed.
+Theorem c08_riff_file : forall ty cs,
+  renc (RList RIFF_ID ty cs) = file riff_format (fun n => RIFF_ID ++ le 4 (4 + N.of_nat n) ++ ty) [] cs.
+Proof. intros ty cs. unfold file. rewrite app_nil_r. cbn [renc]. unfold encs, len. cbn [enc riff_format]. rewrite <- !app_assoc. reflexivity. Qed.
+
+(* ---- 2. the reported manifest region ---- *)
+
+(* PNG, on the bytes of the written file: [Cai; Other before; Other after] partition the file *)
+Theorem c08_png_region :
+  forall crc cs tr b, chunks_wf cs -> (len b < 4294967296)%N ->
+    let a := png_enc (gwrite (png_format crc) cs b) tr in
+    let off := (8 + goff (png_format crc) cs)%nat in
+    let ln := glen (png_format crc) b in
+    png_locations a
+    = ROk [(N.of_nat off, N.of_nat ln, KCai); (0%N, N.of_nat off, KOther);
+           (N.of_nat (off + ln), (len a - N.of_nat (off + ln))%N, KOther)]
+    /\ ln = (12 + length b)%nat.
+Proof. exact png_locations_written. Qed.
+
+(* JPEG: the Cai region is [2 + goff, +glen), every other reported region lies before or after it;
+   hypothesis: the media segments in front of the manifest have a length field *)
+Theorem c08_jpeg_region :
+  forall l b,
+    Forall jseg_ok (strip jpeg_format l) -> jadm b ->
+    Forall (fun s => has_length (jm s) = true) (firstn (ins jpeg_format l) (strip jpeg_format l)) ->
+    exists acc,
+      jpeg_loc_segs (gwrite jpeg_format l b)
+      = ROk (acc ++ [(N.of_nat (2 + goff jpeg_format l), N.of_nat (glen jpeg_format b), KCai)])
+      /\ Forall (fun r => (fst (fst r) + snd (fst r) <= N.of_nat (2 + goff jpeg_format l)
+                          \/ N.of_nat (2 + goff jpeg_format l + glen jpeg_format b) <= fst (fst r))%N) acc.
+Proof. exact jpeg_region_written. Qed.
+
+(* GIF: [Other 0..off-1; Cai off..off+ln; Other rest] *)
+Theorem c08_gif_region :
+  forall bs b plen total,
+    let off := (plen + N.of_nat (goff gif_format bs))%N in
+    let ln := N.of_nat (glen gif_format b) in
+    gif_loc_blocks plen (gwrite gif_format bs b) total
+    = [(0%N, (off - 1)%N, KOther); (off, ln, KCai); ((off + ln)%N, (total - (off + ln))%N, KOther)].
+Proof. exact gif_loc_written. Qed.
+
+(* ---- 3. outside the hypotheses ---- *)
+(* F-JPEG-NOLEN: a parameterless marker in front of the manifest is encoded in 4 bytes but counted as 2:
+   the handler reports offset 13, the manifest starts at byte 15 of the written file *)
+Theorem c08_jpeg_nolen_refuted :
+  let w := gwrite jpeg_format nolen_asset nolen_store in
+  jpeg_write_segs nolen_asset nolen_store = ROk w
+  /\ (exists acc, jpeg_loc_segs w = ROk (acc ++ [(13%N, 36%N, KCai)]))
+  /\ (2 + goff jpeg_format nolen_asset = 15)%nat.
+Proof. exact jpeg_nolen_refuted. Qed.
+
+(* the model computes a non-trivial case: two equal-length stores in a tiny JPEG differ only inside the region *)
+Example c08_example_jpeg :
+  let a := [255;216; 255;224;0;7;74;70;73;70;0; 255;218;0;4;1;2; 3;4;255;217]%N in
+  exists w1 w2, jpeg_write a (gen_store 40 1) = ROk w1 /\ jpeg_write a (gen_store 40 2) = ROk w2
+                /\ length w1 = length w2 /\ firstn 11 w1 = firstn 11 w2 /\ skipn 63 w1 = skipn 63 w2
+                /\ jpeg_locations w1 = ROk [(2, 9, KOther); (63, 10, KOther); (11, 52, KCai)]%N.
+Proof. vm_compute. eexists; eexists. repeat split; reflexivity. Qed.
